@@ -444,7 +444,7 @@ C12_Codec == E.ev = "codec" => E.ok
 
 ---- \* C13 distributed consumers
 C13_ExactlyOne == \A j \in Jobs : enters[j] <= 1
-C13_AllProcessed == RunningAtRest /\ NoUnknown /\ hdr.consumers > 1 => \A j \in Jobs : Accepted(j) /\ ~Excused(j) => exits[j] = 1
+C13_AllProcessed == RunningAtRest /\ NoUnknown /\ (hdr.consumers > 1 \/ \E q \in Queues : hdr.queues[q] \in {"dfifo", "dprio"}) => \A j \in Jobs : Accepted(j) /\ ~Excused(j) => exits[j] = 1
 \* what the adapter already holds when the worker is bound is processed, driven by the bind alone
 C13_Preloaded == RunningAtRest /\ NoUnknown => \A i \in DOMAIN hdr.preload : hdr.preload[i] \in Jobs => exits[hdr.preload[i]] >= 1
 C13_Submitted == Quiescent /\ (\E q \in Queues : hdr.queues[q] \in {"dfifo", "dprio"}) => \A i \in DOMAIN E.csub : E.csub[i] = ad.notified
